@@ -39,6 +39,7 @@ class Integ:
         self.pow_calls = []
         self.fault_ok = fault_ok
         self.setup_flags = []
+        self.calls = []  # (path condition, flag) of every executed integrator call
 
     def stubs(self):
         s = {
@@ -93,18 +94,20 @@ class Integ:
             st.store("integ", 16, step + 1)
         else:
             f, tr = M.fresh_int("flag"), M.fresh_real("tret")
+        if self.script is None and not self.indexed and lvl is not None and not self.fault_ok(lvl):
+            f = 0  # levels beyond the symbolic ones succeed: a concrete flag keeps the run free of infeasible forks
         tcur = R(st.load("integ", 0))
         tout = R(tout)
         # fresh symbols belong to one call site only: no guard needed (and much cheaper)
         pc = st.pathcond() if self.indexed else z3.BoolVal(True)
-        if self.script is not None:
+        if self.script is not None or isinstance(f, int):
             self.assumes.append(tr == tout if f >= 0 else z3.And(tcur <= tr, tr < tout))
         else:
             self.assumes.append(z3.Implies(z3.And(pc, f >= 0), tr == tout))
             self.assumes.append(z3.Implies(z3.And(pc, f < 0), z3.And(tcur <= tr, tr < tout)))
-        if self.script is None and lvl is not None and not self.fault_ok(lvl):
+        if self.script is None and lvl is not None and not self.fault_ok(lvl) and not isinstance(f, int):
             self.assumes.append(z3.Implies(pc, f == 0) if not self.indexed else z3.Implies(pc, f >= 0))
-        if not self.indexed and self.script is None:
+        if not self.indexed and self.script is None and not isinstance(f, int):
             # monolithic sanity run: flags range over [-8, 1] (every class the ladder
             # distinguishes); the unbounded range is covered by the per-level induction
             self.assumes.append(z3.And(f >= -8, f <= 1))
@@ -114,6 +117,7 @@ class Integ:
         if M.check(st, tret, 8, "CVode tret"):
             st.store(tret.obj, tret.off, tr)
         self.flags.append((f, tr, tout))
+        self.calls.append((st.pathcond(), f))
         return st, f
 
     def reinit_(self, M, st, a):
@@ -222,6 +226,7 @@ def check_level_induction(chk, project, tdir, neq, fields):
         st_ = H.base_stubs()
         st_.update(integ.stubs())
         M = Machine([ll], st_)
+        M.deadline = time.time() + 90  # a level of the real ladder takes < 3 000 instructions (< 2 s); a shape that forks per sub-step is given up on
         dem = H.demangle(sorted(M.funcs))
         hname = next(n for n, d in dem.items() if d.startswith("Naunet::HandleError("))
         fn = M.funcs[hname]
@@ -331,6 +336,8 @@ def check_level_induction(chk, project, tdir, neq, fields):
         ask(f"{tag}:failing-reinit=>FAIL", z3.And(z3.Or(c >= -4, c == -6), z3.Int("reinit_L1") < 0, z3.Not(g_fail)))
         c_end = Iz_(st.load(pf.obj, pf.off))
         ask(f"{tag}:SUCCESS=>last-integrator-call-succeeded", z3.And(g_succ, c_end < 0))
+        # a failure inside this level is never papered over by later calls of the same level
+        ask(f"{tag}:SUCCESS=>no-failed-call-in-this-level", z3.And(g_succ, z3.Or([z3.And(pcj, Iz_(fj) < 0) for pcj, fj in integ.calls] or [z3.BoolVal(False)])))
         has_cut = bool(cuts)
         if has_cut:
             cp = at_cut(lambda sn: Iz_(sn["mem"][pf.obj][pf.off]))
@@ -399,6 +406,7 @@ def run_solve(project, tdir, neq, fields, fault_levels, stub_handle=False, index
     st_ = H.base_stubs()
     st_.update(integ.stubs())
     M = Machine([ll], st_)
+    M.deadline = time.time() + 120  # the real Solve + HandleError takes a few seconds; give up on shapes that fork per sub-step
     dem = H.demangle(sorted(M.funcs))
     sname = next(n for n, d in dem.items() if d.startswith("Naunet::Solve("))
     captured = {}
@@ -503,7 +511,11 @@ def check_solve(chk, project, tdir, neq, fields):
     #  (M1, thorough) additionally arbitrary outcomes of all 10 sub-steps of level 1;
     #  (Ms) K concrete flag scripts through all five levels with *symbolic* partial times.
     for levels in ([0] if chk.tier == "quick" else [0, 1]):
-        M, st, ret, integ, y0, dt, _ = run_solve(project, tdir, neq, fields, levels, indexed=False)
+        try:
+            M, st, ret, integ, y0, dt, _ = run_solve(project, tdir, neq, fields, levels, indexed=False)
+        except Inconclusive as e:
+            chk.unknown(f"{tag}:monolithic(levels<={levels})", f"encoder: {e}")
+            continue
         chk.functions.add(f"{tdir}:Naunet::HandleError")
         s = z3.Solver()
         s.set("timeout", 240_000)
@@ -523,6 +535,7 @@ def check_solve(chk, project, tdir, neq, fields):
 
     rnd = random.Random(chk.seed + 99)
     nscripts = 24 if chk.tier == "quick" else 200
+    scripts = []
     for k in range(nscripts):
         script = {(0, 0): rnd.choice([-1, -2, -3, -4, -6, -1, -4, 0, -7])}
         depth = rnd.randint(0, 5)
@@ -530,7 +543,24 @@ def check_solve(chk, project, tdir, neq, fields):
             script[(l, rnd.randint(0, 10 * l - 1))] = rnd.choice([-1, -2, -3, -4, -6, -6, -5, -9])
         if rnd.random() < 0.1:
             script[("reinit", rnd.randint(1, 5))] = -1
-        M, st, ret, integ, y0, dt, _ = run_solve(project, tdir, neq, fields, 5, script=script)
+        scripts.append(script)
+    # deterministic positions: a failure at the first / a middle / the last-but-one / the last sub-step of a level after
+    # recoverable failures at the first sub-step of every earlier level (quick: levels 1, 3, 5; thorough: all)
+    for L in ((1, 3, 5) if chk.tier == "quick" else (1, 2, 3, 4, 5)):
+        n = 10 * L
+        for pos in sorted({0, n // 2, n - 2, n - 1}):
+            for fl in ((-1, -7) if chk.tier == "quick" else (-1, -4, -6, -7)):
+                script = {(0, 0): -2}
+                for l in range(1, L):
+                    script[(l, 0)] = -3
+                script[(L, pos)] = fl
+                scripts.append(script)
+    for k, script in enumerate(scripts):
+        try:
+            M, st, ret, integ, y0, dt, _ = run_solve(project, tdir, neq, fields, 5, script=script)
+        except Inconclusive as e:
+            chk.unknown(f"{tag}:script{k}", f"encoder: {e}")
+            continue
         s = z3.Solver()
         s.set("timeout", 60_000)
         s.add(integ.assumes)
@@ -540,6 +570,17 @@ def check_solve(chk, project, tdir, neq, fields):
         retz = R_int(ret)
         abf = [R(st.load("ab", 8 * i)) for i in range(neq)]
         ask(f"{tag}:script{k}:SUCCESS=>exact-interval", z3.And(retz == SUCCESS, z3.Or([abf[i] != y0[i] + dt for i in range(neq)])), what=None)
+        # the return value against the documented ladder (an unrecoverable or unrepaired failure is never SUCCESS)
+        seq, reinit = script_to_sequence(script)
+        want, _ = ladder_reference(seq, reinit)
+        r_ = str(s.check(retz != want))
+        chk.xc.sample(s, [retz != want], r_, f"{tag}:script{k}:return")
+        if r_ == "unsat":
+            chk.ok(f"{tag}:script{k}:return=documented-ladder")
+        elif r_ == "sat":
+            confirm_return_violation(chk, project, tdir, f"{tag}:script:return", seq, reinit, want, {str(a): b for a, b in script.items()})
+        else:
+            chk.unknown(f"{tag}:script{k}:return", "solver " + r_)
         chk.extra["states"] += 1
         chk.extra["transitions"] += len(integ.flags)
         if k < 2:
@@ -818,6 +859,51 @@ int main(int argc, char **argv) {
 """
 
 
+def ladder_reference(flags, reinit=()):
+    """The recovery ladder as documented (independent of the generated code): `flags` are the integrator's
+    return values in call order (missing = success), `reinit` those of CVodeReInit.  -> (SUCCESS|FAIL, calls made)"""
+    it = iter(flags)
+    nxt = lambda: next(it, 0)
+    rit = iter(reinit)
+    calls = 1
+    f = nxt()
+    if f >= 0:
+        return SUCCESS, calls
+    for level in range(1, 6):
+        if not (-4 <= f <= -1 or f == -6):
+            return FAIL, calls
+        if next(rit, 0) < 0:
+            return FAIL, calls
+        for step in range(10 * level):
+            f = nxt()
+            calls += 1
+            if f < 0:
+                break
+        if f >= 0:
+            return SUCCESS, calls
+    return FAIL, calls
+
+
+def script_to_sequence(script):
+    """{(level, step): flag, ('reinit', level): flag} -> positional flags in the call order of the documented ladder"""
+    seq = [script.get((0, 0), 0)]
+    f = seq[0]
+    reinit = [script.get(("reinit", l), 0) for l in range(1, 6)]
+    if f >= 0:
+        return seq, reinit
+    for level in range(1, 6):
+        if not (-4 <= f <= -1 or f == -6) or reinit[level - 1] < 0:
+            break
+        for step in range(10 * level):
+            f = script.get((level, step), 0)
+            seq.append(f)
+            if f < 0:
+                break
+        if f >= 0:
+            break
+    return seq, reinit
+
+
 def native_ladder(project, tdir, dt, script, reinit=()):
     """run the real compiled naunet.cpp against the scripted mock integrator"""
     t = project.tdir(tdir)
@@ -883,6 +969,38 @@ def confirm_ladder_violation(chk, project, tdir, name, trace, level, what=None):
     chk.harness_error(f"non-reproducing counterexample for {name}")
 
 
+def confirm_return_violation(chk, project, tdir, name, seq, reinit, want, script):
+    """replay a flag sequence on the real compiled naunet.cpp (scripted mock integrator)"""
+    try:
+        out = native_ladder(project, tdir, 1.0, [(f, 0.5 if f < 0 else 1.0) for f in seq], reinit=[r for r in reinit])
+        chk.replays_done += 1
+    except Inconclusive as e:
+        chk.unknown(name, f"return value differs from the documented ladder for {script} but the native mock is unavailable: {e}")
+        return
+    if out.get("ret") != want:
+        chk.violation(name, f"Solve returns {'SUCCESS' if out.get('ret') == SUCCESS else out.get('ret')} where the documented recovery ladder gives {'FAIL' if want == FAIL else 'SUCCESS'}: integrator flags in call order {seq[:12]}{'...' if len(seq) > 12 else ''} (a failure in a sub-step that no later level repairs is reported as success)",
+                      {"target": tdir, "flags_in_call_order": seq, "reinit_flags": list(reinit), "native": out, "documented": want, "script": script})
+    else:
+        chk.unknown(name, f"solver says the return value differs from the documented ladder for {script}, the native build agrees with the ladder")
+        chk.harness_error(f"non-reproducing counterexample for {name}")
+
+
+def ladder_positions():
+    """deterministic fault scripts: a failure at the first / a middle / the last-but-one / the last sub-step of every
+    level (earlier levels each fail at their first sub-step with a recoverable flag), recoverable / reset / unrecoverable"""
+    out = []
+    for L in range(1, 6):
+        n = 10 * L
+        for pos in sorted({0, n // 2, n - 2, n - 1}):
+            for fl in (-1, -4, -6, -7):
+                seq = [-2]
+                for l in range(1, L):
+                    seq += [-3]
+                seq += [0] * pos + [fl]
+                out.append(seq)
+    return out
+
+
 def validate_traces(chk, project, tdir, n):
     """traces validated against the implementation: scripted native runs must agree
     with the model's prediction (SUCCESS => exactly dt)."""
@@ -890,11 +1008,16 @@ def validate_traces(chk, project, tdir, n):
 
     rnd = random.Random(chk.seed + 5)
     good = 0
+    scripts = []
     for k in range(n):
         script = [(rnd.choice([-1, -2, -3, -4, -6, 0]), rnd.choice([0.0, 0.5, 0.99]))]
         for l in range(1, rnd.randint(0, 5) + 1):
             s_ = rnd.randint(1, 10 * l)
             script += [(0, 1.0)] * (s_ - 1) + [(rnd.choice([-1, -2, -3, -4, -6, -7]), rnd.choice([0.0, 0.3, 0.7]))]
+        scripts.append(script)
+    # every level x {first, middle, last-but-one, last sub-step} x {recoverable, reset, unrecoverable}
+    scripts += [[(f, 0.5 if f < 0 else 1.0) for f in seq] for seq in ladder_positions()]
+    for k, script in enumerate(scripts):
         dt = rnd.choice([1.0, 1e3, 3.15e7])
         try:
             out = native_ladder(project, tdir, dt, script)
@@ -902,6 +1025,11 @@ def validate_traces(chk, project, tdir, n):
             chk.notes.append(f"native mock unavailable: {e}")
             return
         chk.replays_done += 1
+        want, _ = ladder_reference([f for f, _ in script])
+        if out.get("ret") != want:
+            chk.violation(f"{tdir}:native-trace:return", f"real Solve under the scripted integrator returns {out.get('ret')} where the documented recovery ladder gives {want} (0 = SUCCESS, 1 = FAIL): flags in call order {[f for f, _ in script][:14]}",
+                          {"target": tdir, "dt": dt, "script": script, "native": out, "documented": want})
+            continue
         if out.get("ret") == SUCCESS:
             if any(abs(v - dt) > 1e-9 * dt for v in out["y"].values()):
                 chk.violation(f"{tdir}:native-trace:{k}", f"real Solve under the scripted integrator returned SUCCESS with progress {out['y']} != dt={dt}", {"target": tdir, "dt": dt, "script": script, "native": out})
